@@ -300,6 +300,14 @@ class Check:
         self.known_hits = []
         self.notes = []
         os.makedirs(os.path.join(RUN, pid), exist_ok=True)
+        # replays of earlier runs of this property are stale
+        d = os.path.join(VERIF, "replays", pid)
+        if os.path.isdir(d):
+            for f in os.listdir(d):
+                try:
+                    os.remove(os.path.join(d, f))
+                except OSError:
+                    pass
 
     def rundir(self):
         return os.path.join(RUN, self.pid)
